@@ -52,3 +52,130 @@ package fsnotify
 //@   ensures  !(cookie != 0 && mask & unix.IN_MOVED_FROM != 0) ==>
 //@              w.cookies == old(w.cookies) && w.cookieIndex == old(w.cookieIndex) && seenFrom == old(seenFrom) && lastFrom == old(lastFrom)    [C11] "anything else leaves the ring alone"
 //@   ensures  !held(inotify.cookiesMu)                                                      [C05 C07]
+
+// ---- ownership and roles (C07): the two tables and every watch object they
+// hold belong to shared.mu; the channels belong to the reader goroutine.
+//@ owned shared.mu: watch.wd, watch.flags, watch.path, watch.recurse, m:uint32:*fsnotify.watch, m:string:uint32
+//@ immutable inotify.fd, inotify.inotifyFile, inotify.watches, inotify.doneResp, inotify.Events, inotify.Errors, inotify.shared, watches.wd, watches.path
+//@ chan inotify.Events sender=reader closer=reader
+//@ chan inotify.Errors sender=reader closer=reader
+//@ chan inotify.doneResp closer=reader closeonly
+//@ alloc inotify grants reader
+
+// ---- data-structure invariants (C04, C07, C12); lock invariant of shared.mu
+//@ pred Wf(w *inotify) := w.shared != nil && w.watches != nil && w.inotifyFile != nil && w.watches.wd != nil && w.watches.path != nil &&
+//@        w.Events == w.shared.Events && w.Errors == w.shared.Errors && w.Events != nil && w.Errors != nil && w.doneResp != nil && w.shared.done != nil
+//@ pred TablesInv(ws *watches) :=
+//@        forall(p, string, has(ws.path, p) ==> has(ws.wd, ws.path[p]) && ws.wd[ws.path[p]].path == p && filepath.Clean(p) == p) &&
+//@        forall(k, uint32, has(ws.wd, k) ==> ws.wd[k] != nil && allocated(ws.wd[k]) && ws.wd[k].wd == k && has(ws.path, ws.wd[k].path) && ws.path[ws.wd[k].path] == k && 1 <= k && k < 0x80000000) &&
+//@        (!enableRecurse ==> forall(k, uint32, has(ws.wd, k) ==> !ws.wd[k].recurse))
+//@ pred KInv(ws *watches) := forall(k, uint32, has(K, k) ==> has(ws.wd, k)) && forall(k, uint32, has(ws.wd, k) ==> has(K, k) || has(Pending, k))
+//@ lockinv shared.mu (w *inotify) := TablesInv(w.watches)          [C04 C07 C12] "the two tables describe the same set of watches"
+//@   invariant KInv(w.watches)                                     [C12] "kernel watches and table entries are in step"
+
+//@ func (w *watches) removePath(path string) (wds []uint32, err error)
+//@   mode modeA: !enableRecurse
+//@   requires held(shared.mu) && w.wd != nil && w.path != nil && TablesInv(w)
+//@   let p = filepath.Clean(path)
+//@   ensures err != nil ==> w.wd == old(w.wd) && w.path == old(w.path)                           [C04] "a failed Remove leaves the set untouched"
+//@   ensures !has(old(w.path), p) ==> err != nil && errIs(err, ErrNonExistentWatch)              [C04 C07 C09] "Remove of a path not in the list fails with ErrNonExistentWatch"
+//@   ensures errIs(err, ErrNonExistentWatch) ==> !has(old(w.path), p)                            [C04]
+//@   ensures modeA && has(old(w.path), p) ==> err == nil && len(wds) == 1 && wds[0] == old(w.path)[p] &&
+//@             w.path == del(old(w.path), p) && w.wd == del(old(w.wd), old(w.path)[p])             [C04 C09 C12] "exactly that entry leaves both tables"
+
+//@ func (w *inotify) remove(name string) (err error)
+//@   mode modeA: !enableRecurse
+//@   requires held(shared.mu) && !held(inotify.cookiesMu) && Wf(w) && TablesInv(w.watches)
+//@   requires forall(k, uint32, has(w.watches.wd, k) ==> has(K, k) || has(Pending, k))
+//@   requires forall(k, uint32, has(K, k) ==> has(w.watches.wd, k))
+//@   let p = filepath.Clean(name)
+//@   let P0 = old(w.watches.path)
+//@   let W0 = old(w.watches.wd)
+//@   ensures TablesInv(w.watches)                                                                 [C04 C07 C12]
+//@   ensures modeA ==> KInv(w.watches)                                                            [C12]
+//@   ensures !has(P0, p) ==> errIs(err, ErrNonExistentWatch) && w.watches.wd == W0 && w.watches.path == P0   [C04 C07 C09] "Remove of an unlisted path: ErrNonExistentWatch, nothing changes"
+//@   ensures errIs(err, ErrNonExistentWatch) ==> !has(P0, p)                                      [C04 C10]
+//@   ensures has(P0, p) ==> w.watches.path == del(P0, p) && w.watches.wd == del(W0, P0[p])        [C04 C09 C12] "the entry leaves both tables"
+//@   ensures has(P0, p) && err == nil ==> !has(K, P0[p])                                          [C12] "the kernel watch of a removed entry is released"
+//@   ensures has(P0, p) ==> err == nil || closed(w.done)                                          [C04 C10] "removing a listed path only fails on a closed watcher"
+//@   ensures held(shared.mu)
+//@   loop 1 "for _, wd := range wds"
+//@     invariant held(shared.mu) && TablesInv(w.watches) && loopIdx <= len(wds) && (modeA ==> len(wds) == 1)
+//@     invariant forall(k, uint32, has(w.watches.wd, k) ==> has(K, k) || has(Pending, k))
+//@     invariant forall(k, uint32, has(K, k) ==> has(w.watches.wd, k) || exists(j, int, loopIdx <= j && j < len(wds) && wds[j] == k))
+//@     invariant forall(j, int, 0 <= j && j < loopIdx ==> !has(K, wds[j]))
+
+// register (with updatePath and the closure inlined). k is the kernel's answer
+// (ghost lastWd, set by the assumed contract of inotify_add_watch).
+//@ func (w *inotify) register(path string, flags uint32, recurse bool) (err error)
+//@   mode modeA: !enableRecurse
+//@   requires held(shared.mu) && !held(inotify.cookiesMu) && Wf(w) && TablesInv(w.watches) && KInv(w.watches)
+//@   requires filepath.Clean(path) == path                                                         [C04 C08]
+//@   requires modeA ==> !recurse
+//@   let k = uint32(lastWd)
+//@   let P0 = old(w.watches.path)
+//@   let W0 = old(w.watches.wd)
+//@   ensures held(shared.mu)
+//@   ensures TablesInv(w.watches)                                                                   [C04 C07 C12]
+//@   ensures KInv(w.watches)                                                                        [C12]
+//@   ensures (err != nil) <==> (lastWd == -1)
+//@   ensures err != nil ==> w.watches.wd == W0 && w.watches.path == P0                              [C04] "a failed Add leaves the set untouched"
+//@   ensures err == nil && has(W0, k) && (!has(P0, path) || P0[path] == k) ==>
+//@             w.watches.wd == W0 && w.watches.path == P0                                           [C04 C08] "adding a path whose file is already watched changes nothing (the first spelling stays)"
+//@   ensures err == nil && has(W0, k) && has(P0, path) && P0[path] != k ==>
+//@             w.watches.path == del(P0, path) && w.watches.wd == del(W0, P0[path]) && !has(K, P0[path])     [C04 C12] "a listed path that now names another watched file: its entry goes and the old kernel watch is released"
+//@   ensures err == nil && !has(W0, k) && !has(P0, path) ==>
+//@             w.watches.path == set(P0, path, k) && has(w.watches.wd, k) && fresh(w.watches.wd[k]) &&
+//@             forall(j, uint32, j != k ==> (has(w.watches.wd, j) <==> has(W0, j)) && w.watches.wd[j] == W0[j]) &&
+//@             w.watches.wd[k].path == path && w.watches.wd[k].recurse == recurse                   [C04 C08] "a new file under a new path: exactly one new entry, named as given"
+//@   ensures err == nil && !has(W0, k) && has(P0, path) ==>
+//@             w.watches.path == set(P0, path, k) && w.watches.wd == set(del(W0, P0[path]), k, W0[P0[path]]) && !has(K, P0[path])   [C04 C09 C12] "a listed path that now names a new file: its watch moves there and the old kernel watch is released"
+
+//@ func (w *inotify) AddWith(path string, opts ...addOpt) (err error)
+//@   mode modeA: !enableRecurse
+//@   requires Wf(w) && nolocks()
+//@   let p = filepath.Clean(path)
+//@   ensures nolocks()                                                                              [C05 C07]
+//@   ensures old(closed(w.done)) ==> err == ErrClosed && !didLock(shared.mu)                        [C06] "after Close, Add fails with ErrClosed"
+//@   atcall inotify.register: arg_flags == requestInotify(with.op, with.noFollow)                   [C01 C15] "the native flags requested are exactly those needed for the requested operations"
+//@   atcall inotify.register: modeA ==> arg_path == p && !arg_recurse                               [C04 C08] "the watch is registered under the cleaned Add argument"
+
+// request side of the flag table (C15), transcribed from the Watcher documentation and inotify(7)
+//@ def requestInotify(op Op, noFollow bool) := ite(noFollow, uint32(unix.IN_DONT_FOLLOW), 0) |
+//@        ite(op & Create != 0, uint32(unix.IN_CREATE), 0) |
+//@        ite(op & Write != 0, uint32(unix.IN_MODIFY), 0) |
+//@        ite(op & Remove != 0, uint32(unix.IN_DELETE | unix.IN_DELETE_SELF), 0) |
+//@        ite(op & Rename != 0, uint32(unix.IN_MOVED_TO | unix.IN_MOVED_FROM | unix.IN_MOVE_SELF), 0) |
+//@        ite(op & Chmod != 0, uint32(unix.IN_ATTRIB), 0) |
+//@        ite(op & xUnportableOpen != 0, uint32(unix.IN_OPEN), 0) |
+//@        ite(op & xUnportableRead != 0, uint32(unix.IN_ACCESS), 0) |
+//@        ite(op & xUnportableCloseWrite != 0, uint32(unix.IN_CLOSE_WRITE), 0) |
+//@        ite(op & xUnportableCloseRead != 0, uint32(unix.IN_CLOSE_NOWRITE), 0)
+
+//@ func (w *inotify) Remove(name string) (err error)
+//@   mode modeA: !enableRecurse
+//@   requires Wf(w) && nolocks()
+//@   let p = filepath.Clean(name)
+//@   let P1 = atLock(w.watches.path)
+//@   let W1 = atLock(w.watches.wd)
+//@   ensures nolocks()                                                                              [C05 C07]
+//@   ensures old(closed(w.done)) ==> err == nil && !didLock(shared.mu)                              [C06] "after Close, Remove returns nil"
+//@   ensures didLock(shared.mu) ==> (errIs(err, ErrNonExistentWatch) <==> !has(P1, p))              [C04 C07 C09] "Remove fails with ErrNonExistentWatch exactly for a path that is not listed (looked up after cleaning)"
+//@   ensures didLock(shared.mu) && !has(P1, p) ==> atUnlock(w.watches.path) == P1 && atUnlock(w.watches.wd) == W1     [C04] "a failed Remove leaves the set untouched"
+//@   ensures didLock(shared.mu) && has(P1, p) ==> atUnlock(w.watches.path) == del(P1, p) && atUnlock(w.watches.wd) == del(W1, P1[p])   [C04 C09 C12] "Remove of a listed path removes exactly that entry"
+//@   ensures didLock(shared.mu) && has(P1, p) ==> err == nil || closed(w.done)                      [C04 C10]
+
+//@ func (w *inotify) WatchList() (l []string)
+//@   requires Wf(w) && nolocks()
+//@   let P1 = atLock(w.watches.path)
+//@   ensures nolocks()                                                                              [C05 C07]
+//@   ensures old(closed(w.done)) ==> len(l) == 0 && !didLock(shared.mu)                             [C06] "after Close, WatchList returns nil"
+//@   ensures didLock(shared.mu) ==> forall(i, int, 0 <= i && i < len(l) ==> has(P1, l[i]))          [C04 C07] "WatchList never shows a path that is not listed"
+//@   ensures didLock(shared.mu) ==> forall(p, string, has(P1, p) ==> exists(i, int, 0 <= i && i < len(l) && l[i] == p))    [C04] "every listed path is shown"
+//@   ensures didLock(shared.mu) ==> forall(i, int, forall(j, int, 0 <= i && i < j && j < len(l) ==> l[i] != l[j]))         [C04 C07] "WatchList never shows a path twice"
+//@   ensures didLock(shared.mu) ==> atUnlock(w.watches.path) == P1 && atUnlock(w.watches.wd) == atLock(w.watches.wd)       [C04]
+//@   loop 1 "for pathname := range w.watches.path"
+//@     invariant held(shared.mu) && w.watches.path == atLock(w.watches.path) && w.watches.wd == atLock(w.watches.wd)
+//@     invariant forall(i, int, 0 <= i && i < len(entries) ==> has(visited, entries[i]) && has(w.watches.path, entries[i]))
+//@     invariant forall(p, string, has(visited, p) ==> exists(i, int, 0 <= i && i < len(entries) && entries[i] == p))
+//@     invariant forall(i, int, forall(j, int, 0 <= i && i < j && j < len(entries) ==> entries[i] != entries[j]))
